@@ -20,8 +20,8 @@ def db_repo(db):
 def body(chk, db, cfgname):
     r1 = chk.rule("C08-R1", "every partition is a partition: each Fock state classified exactly once, (block, position) addresses round-trip, integrals of motion accepted only after they commute with H and all n_i", "F1 pairing/dominance (rules C07-R1..R3)", 9)
     r2 = chk.rule("C08-R2", "operator bimaps are complete for every partition: one part per right block with an image block, no filter that depends on which blocks coincide; c, c+ and c+c built alike; annihilation part is the adjoint for every block pair", "F4 siblings + F1 (rules C07-R5, C10-R2, C10-R4)", 8)
-    r3 = chk.rule("C08-R3", "stripe selections consume the bimaps completely: G, chi, the two-particle function and <c+c> create a part for every pair/chain of blocks the operators connect and bind each part to the data of exactly those blocks", "F5 index spaces + F1 walks (rules C01-R2/R3, C14-R2, C02-R3/R4, C09-R4)", 32)
-    r4 = chk.rule("C08-R4", "index-space discipline: inside a block, eigenstate numbers and Fock positions are never confused (a confusion is invisible for 1x1 and 2x2 blocks and shows with coarser partitions)", "F5 index spaces (rules C09-R5, C10-R3)", 16)
+    r3 = chk.rule("C08-R3", "stripe selections consume the bimaps completely: G, chi, the two-particle function and <c+c> create a part for every pair/chain of blocks the operators connect and bind each part to the data of exactly those blocks", "F5 index spaces + F1 walks (rules C01-R2/R3, C14-R2, C02-R3/R4, C09-R4)", 24)
+    r4 = chk.rule("C08-R4", "index-space discipline: inside a block, eigenstate numbers and Fock positions are never confused (a confusion is invisible for 1x1 and 2x2 blocks and shows with coarser partitions)", "F5 index spaces (rules C09-R5, C10-R3)", 8)
     c07.body(ViewCheck(chk, {"C07-R1": r1, "C07-R2": r1, "C07-R3": r1, "C07-R6": r1, "C07-R5": r2}), db, cfgname)
     c10.body(ViewCheck(chk, {"C10-R2": r2, "C10-R4": r2, "C10-R3": r4}), db, cfgname)
     c01.body(ViewCheck(chk, {"C01-R2": r3, "C01-R3": r3}), db, cfgname)
@@ -29,7 +29,7 @@ def body(chk, db, cfgname):
     c02.body(ViewCheck(chk, {"C02-R3": r3, "C02-R4": r3}), db, cfgname)
     c09.body(ViewCheck(chk, {"C09-R4": r3, "C09-R5": r4}), db, cfgname)
     # ------------------------------------------------------------------ R5: the numerical kernels never look at *which* block they are in
-    r5 = chk.rule("C08-R5", "partition transparency of the kernels: inside the per-block computations the identity of a block (BlockNumber / QuantumNumbers) is used only to fetch data, never compared or branched on, and no single Fock state stands for a whole block", "F4 effects / who-may-compare", 22)
+    r5 = chk.rule("C08-R5", "partition transparency of the kernels: inside the per-block computations the identity of a block (BlockNumber / QuantumNumbers) is used only to fetch data, never compared or branched on, and no single Fock state stands for a whole block", "F4 effects / who-may-compare", 12)
     KERNELS = ("Pomerol::GreensFunctionPart", "Pomerol::SusceptibilityPart", "Pomerol::TwoParticleGFPart", "Pomerol::DensityMatrixPart", "Pomerol::FieldOperatorPart",
                "Pomerol::HamiltonianPart", "Pomerol::CreationOperatorPart", "Pomerol::AnnihilationOperatorPart", "Pomerol::QuadraticOperatorPart")
     extra = [x for x in db.fns.values() if x.qn in ("Pomerol::EnsembleAverage::compute",)]
